@@ -3,6 +3,7 @@ package checks
 import (
 	"encoding/json"
 	"fmt"
+	"strings"
 	"testing"
 	"time"
 
@@ -75,6 +76,25 @@ func genC15(t *rapid.T, excluded *int) C15Case {
 			}
 			if !ok {
 				continue
+			}
+			// a name that an earlier (or just removed) field used, now with
+			// another expression: identity is name + expression, so this is a
+			// new field that starts empty, not the old one continued
+			var free []string
+			for _, e := range ever {
+				taken := false
+				for _, x := range next {
+					taken = taken || x.Name == e.Name
+				}
+				for _, x := range free {
+					taken = taken || x == e.Name
+				}
+				if !taken {
+					free = append(free, e.Name)
+				}
+			}
+			if len(free) > 0 && rapid.IntRange(0, 2).Draw(t, fmt.Sprintf("%s.reuse%d", label, i)) == 0 {
+				f.Name = rapid.SampledFrom(free).Draw(t, fmt.Sprintf("%s.reusename%d", label, i))
 			}
 			ever = append(ever, f)
 			pos := rapid.IntRange(0, len(next)).Draw(t, fmt.Sprintf("%s.pos%d", label, i))
@@ -182,6 +202,11 @@ func runC15(c *C15Case) ([]string, error) {
 		for _, f := range next {
 			cur[ident(f)] = true
 			if _, ok := since[ident(f)]; !ok {
+				for id := range since {
+					if strings.HasPrefix(id, f.Name+"|") {
+						labels["name-reused-with-new-expression"] = true
+					}
+				}
 				since[ident(f)] = processed
 			}
 		}
